@@ -141,6 +141,18 @@ impl SnapshotList {
     }
 }
 
+/// Introspection for the verification hooks (`--cfg raindb_verif` only).
+#[cfg(raindb_verif)]
+impl SnapshotList {
+    /// The sequence numbers of the live snapshots, oldest first.
+    pub(crate) fn verif_sequences(&self) -> Vec<u64> {
+        self.list
+            .iter()
+            .map(|node| node.read().element.sequence_number())
+            .collect()
+    }
+}
+
 #[cfg(test)]
 mod tests {
     use super::*;
